@@ -65,7 +65,10 @@ def gen_api(rng, size="normal", c18=False):
                 args.append((rng.choice(H.ARG_KINDS), an))
             recv = rng.choice(["ref", "ref", "mut", "mut", "own"])
             ret = rng.choice(H.RET_KINDS) if rng.chance(3, 4) else "void"
-            methods.append({"name": n, "recv": recv, "args": args, "ret": ret})
+            md = {"name": n, "recv": recv, "args": args, "ret": ret}
+            if args and rng.chance(1, 4):
+                md["wrap"] = True       # the member is printed over several lines (cbindgen breaks over-long lines, one parameter per line)
+            methods.append(md)
         traits.append({"name": tnames[ti], "methods": methods, "rettmp": rng.chance(1, 4)})
     objects, seen = [], set()
     for _ in range(rng.below(4)):
